@@ -390,3 +390,50 @@ func ZZ_C12_Threads() {
 		}
 	}
 }
+
+// ZZ_C09_Conc: sends to an unregistered local PID while other goroutines spawn and stop actors and subscribe
+// (registry writers). Sending must not block its caller: every goroutine finishes (a deadlock is reported by the
+// scheduler), and every undeliverable message is published as a dead letter exactly once with its target and
+// sender. The engine is the one NewEngine builds (real event stream actor and inbox).
+func ZZ_C09_Conc() {
+	G := zzrt.Param("G")
+	e, _ := zzEngineWithStream()
+	sub := &ZZRecProc{Pid: NewPID(e.address, "sub"+pidSeparator+"0")}
+	e.Registry.lookup[sub.Pid.ID] = sub
+	e.Subscribe(sub.Pid)
+	zzrt.Quiesce()
+	ghost := NewPID(e.address, "ghost"+pidSeparator+"x")
+	from := NewPID(e.address, "sender"+pidSeparator+"a")
+	sent := 0
+	for g := 0; g < G; g++ {
+		g := g
+		sent++
+		zzrt.Go(func() { e.SendWithSender(ghost, zzEvt{g}, from) })
+	}
+	var spawned *PID
+	zzrt.Go(func() {
+		spawned = e.SpawnFunc(func(*Context) {}, "w", WithID("1"))
+		<-e.Poison(spawned).Done()
+	})
+	zzrt.Quiesce()
+	zzrt.Assert(spawned != nil && e.Registry.get(spawned) == nil, "C09:spawner-did-not-finish")
+	n := make([]int, G)
+	for _, got := range sub.Got {
+		d, ok := got.Msg.(DeadLetterEvent)
+		if !ok {
+			continue
+		}
+		ev, ok := d.Message.(zzEvt)
+		if !ok {
+			continue
+		}
+		zzrt.Assert(ev.N >= 0 && ev.N < G && d.Target == ghost && d.Sender == from, "C09:dead-letter-with-wrong-target-or-sender")
+		if ev.N >= 0 && ev.N < G {
+			n[ev.N]++
+		}
+	}
+	for g := 0; g < G; g++ {
+		zzrt.Assert(n[g] == 1, "C09:undeliverable-message-not-published-exactly-once")
+	}
+	zzrt.Reach("dead-letters-while-the-registry-is-written")
+}
